@@ -88,15 +88,48 @@ type ObjStmMember struct {
 
 // ObjStm writes an object stream (optionally Flate-compressed) and returns its offset.
 func (p *PDF) ObjStm(num int, members []ObjStmMember, flate bool, lengthRef int) int64 {
+	return p.ObjStmRaw(num, members, flate, lengthRef, nil)
+}
+
+// RawObjStm is an object stream on its way into the file (fault injection): NText and
+// FirstText replace the /N and /First values when non-empty; Nums and Offsets are the
+// header pairs as they will be written.
+type RawObjStm struct {
+	Ordinal   int
+	Num       int
+	NText     string
+	FirstText string
+	Nums      []string
+	Offsets   []string
+}
+
+// ObjStmRaw writes an object stream whose dictionary values and header pairs may be
+// rewritten by hook before they are laid out.
+func (p *PDF) ObjStmRaw(num int, members []ObjStmMember, flate bool, lengthRef int, hook func(*RawObjStm)) int64 {
 	var head, body strings.Builder
+	raw := RawObjStm{Num: num}
 	for _, m := range members {
-		fmt.Fprintf(&head, "%d %d ", m.Num, body.Len())
+		raw.Nums = append(raw.Nums, fmt.Sprint(m.Num))
+		raw.Offsets = append(raw.Offsets, fmt.Sprint(body.Len()))
 		body.WriteString(m.Body)
 		body.WriteString(" ")
 	}
+	if hook != nil {
+		hook(&raw)
+	}
+	for i := range raw.Nums {
+		fmt.Fprintf(&head, "%s %s ", raw.Nums[i], raw.Offsets[i])
+	}
 	first := head.Len()
 	data := []byte(head.String() + body.String())
-	dict := fmt.Sprintf("/Type /ObjStm /N %d /First %d", len(members), first)
+	nText, firstText := fmt.Sprint(len(members)), fmt.Sprint(first)
+	if raw.NText != "" {
+		nText = raw.NText
+	}
+	if raw.FirstText != "" {
+		firstText = raw.FirstText
+	}
+	dict := fmt.Sprintf("/Type /ObjStm /N %s /First %s", nText, firstText)
 	if flate {
 		data = Deflate(data)
 		dict += " /Filter /FlateDecode"
